@@ -47,6 +47,8 @@ type World struct {
 	TLSCfg         *tls.Config // server config used by the StartTLS handler
 	SharedCtl      map[string]gldap.Control
 	Opts           SrvOpts
+	Mux            *gldap.Mux
+	Kept           []keptReq // every request a handler saw, with the connection ID it reported then
 }
 
 func W() *World {
@@ -54,6 +56,11 @@ func W() *World {
 		return vrt.FreeData().(*World)
 	}
 	return vrt.Current().Data.(*World)
+}
+
+type keptReq struct {
+	R    *gldap.Request
+	Conn int
 }
 
 type WriteRec struct {
@@ -82,6 +89,8 @@ type HSpec struct {
 	Yields      int    // extra scheduling points before writing
 	YieldsAfter int
 	PanicVal    string // kind of value the handler panics with: "" = string | error | int | struct | stringer | nilmap (a runtime error)
+	WaitMid     string // after the entry frames and before the final response: block until Notes[WaitMid] > 0
+	Fan         int    // the entry frames are written by this many goroutines of the handler through the one ResponseWriter
 	Ctl         string // attach the scenario's shared control object of this kind to the final response (bind, search)
 }
 
@@ -224,6 +233,7 @@ func (w *World) handler(route string) gldap.HandlerFunc {
 		conn := r.ConnectionID()
 		vrt.Atomic(func() {
 			w.Dispatch = append(w.Dispatch, DispatchRec{Conn: conn, Req: r.ID, MsgID: id, Route: route})
+			w.Kept = append(w.Kept, keptReq{r, conn})
 			w.Started++
 			w.InFlight++
 		})
@@ -271,8 +281,28 @@ func (w *World) handler(route string) gldap.HandlerFunc {
 			})
 			seq++
 		}
-		for i, sz := range sp.Frames {
-			write(entryFrameFor(r, sz, i))
+		if sp.Fan > 1 {
+			// a handler that fans its result out to workers: several goroutines, one ResponseWriter
+			done := 0
+			for g := 0; g < sp.Fan; g++ {
+				g := g
+				vrt.Go(func() {
+					for i, sz := range sp.Frames {
+						if i%sp.Fan == g {
+							write(entryFrameFor(r, sz, i))
+						}
+					}
+					vrt.Atomic(func() { done++ })
+				})
+			}
+			vrt.WaitUntil("fan-done", func() bool { return done == sp.Fan })
+		} else {
+			for i, sz := range sp.Frames {
+				write(entryFrameFor(r, sz, i))
+			}
+		}
+		if sp.WaitMid != "" {
+			vrt.WaitUntil(sp.WaitMid, func() bool { return w.Notes[sp.WaitMid] > 0 })
 		}
 		if !sp.NoFinal {
 			fin := finalFor(route, r)
@@ -374,7 +404,10 @@ func (w *World) StartServer(o SrvOpts) {
 			for i := 0; i < o.OnCloseYields; i++ {
 				vrt.Yield()
 			}
-			vrt.Atomic(func() { w.OnClose = append(w.OnClose, id) })
+			vrt.Atomic(func() {
+				w.OnClose = append(w.OnClose, id)
+				w.Notes[fmt.Sprintf("onclose-%d", id)]++
+			})
 			vrt.Logf("onclose %d", id)
 		}))
 	}
@@ -396,7 +429,8 @@ func (w *World) StartServer(o SrvOpts) {
 			panic(e)
 		}
 	}
-	must(srv.Router(w.buildMux(o)))
+	w.Mux = w.buildMux(o)
+	must(srv.Router(w.Mux))
 	w.Srv = srv
 	w.Opts = o
 	w.Addr = o.Addr
@@ -462,6 +496,17 @@ func (w *World) buildMux(o SrvOpts) *gldap.Mux {
 		}))
 	}
 	return mux
+}
+
+// ReplaceUnbindRoute registers another unbind handler on the running server's mux (Mux.Unbind overrides).
+func (w *World) ReplaceUnbindRoute() {
+	_ = w.Mux.Unbind(func(rw *gldap.ResponseWriter, r *gldap.Request) {
+		id := msgIDOf(r)
+		vrt.Atomic(func() {
+			w.Dispatch = append(w.Dispatch, DispatchRec{Conn: r.ConnectionID(), Req: r.ID, MsgID: id, Route: "unbind-replaced"})
+		})
+		vrt.Logf("h-unbind conn=%d req=%d", r.ConnectionID(), r.ID)
+	})
 }
 
 func (w *World) startRest(o SrvOpts) {
